@@ -149,6 +149,13 @@ class C13(Prop):
             st = tuple((str(r[0]) if len(r) > 0 else '', r[1] if len(r) > 1 and r[1] is not None else '', 1) if r is not t[0]
                        else r for r in t)
             yield Case('search', (rng.choice(['x', 'y', '1', 'a']), rng.choice([None, 'k', 'a', ('k', 'a')]), compl, st))
+            # regular expressions proper and flags, judged against re.search on the real code (both halves of the partition)
+            yield Case('search_re', (rng.choice(['X', '^x', 'y$', 'x|1', '[ab]', 'Y']), rng.choice([None, 'k', 'a']),
+                                     rng.choice([0, 0, 2, 8]), st))
+            yield Case('search_re', (rng.choice(['X', 'Y', 'XY']), rng.choice([None, 'a', 'a']), 2, st))
+            # membership in a string (substring semantics) and in a tuple, selectin vs selectnotin
+            yield Case('select', ('field', 'a', ('in', rng.choice(['xy', 'yx', 'x', ''])), compl, None, t))
+            yield Case('select', ('field', 'a', ('notin', rng.choice(['xy', 'yx', 'x', ''])), compl, None, t))
         # all slice argument triples
         vals = [None, 0, 1, 2, 5]
         t = (('k',),) + tuple((i,) for i in range(7))
@@ -174,6 +181,8 @@ class C13(Prop):
             if case.op == 'skip':
                 n, t = case.arg
                 return obs_rows(etl.skip([tuple(r) for r in t], n))
+            if case.op == 'const_true':
+                return codec.t_bool(self._search_re(*case.arg))
             if case.op == 'search':
                 pat, field, compl, t = case.arg
                 f = etl.searchcomplement if compl else etl.search
@@ -183,10 +192,39 @@ class C13(Prop):
             return obs_exc(e)
         raise ValueError(case.op)
 
+    def expand(self, case):
+        if case.op == 'search_re':
+            return Case('const_true', case.arg, dict(case.meta, orig='search_re'))
+        return case
+
+    def _search_re(self, pat, field, flags, t):
+        import re
+        import petl as etl
+        src = [tuple(r) for r in t]
+        prog = re.compile(pat, flags)
+        hdr = t[0]
+
+        def hit(r):
+            if field is None:
+                return any(prog.search(str(v)) for v in r)
+            i = hdr.index(field)
+            return bool(prog.search(str(r[i])))
+        want_in = [tuple(r) for r in t[1:] if hit(r)]
+        want_out = [tuple(r) for r in t[1:] if not hit(r)]
+        if field is None:
+            got_in = list(etl.search(src, pat, flags=flags))[1:]
+            got_out = list(etl.searchcomplement(src, pat, flags=flags))[1:]
+        else:
+            got_in = list(etl.search(src, field, pat, flags=flags))[1:]
+            got_out = list(etl.searchcomplement(src, field, pat, flags=flags))[1:]
+        return [tuple(r) for r in got_in] == want_in and [tuple(r) for r in got_out] == want_out
+
     def spec(self, case, impl_obs, model_obs):
         """The documented predicate, evaluated independently on the input rows (field selectors on rectangular-or-ragged
         tables): rows returned = rows satisfying it (XOR complement), in input order; and select + complement partition."""
         import petl as etl
+        if case.op == 'const_true':
+            return impl_obs == codec.t_bool(True)
         if case.op != 'select' or impl_obs[0] != 'li':
             return None
         form, field, pred, compl, missing, t = case.arg
